@@ -382,6 +382,14 @@ def c05_schedule(tier, seed, mc):
                        "walks": len(walks), "walk_ops": sum(len(w) for w in walks)}
         for kind in corpora.CLASS_KINDS[name]:
             for wi, w in enumerate(walks):
+                if kind == "JitterRng":
+                    # calls that are not output calls (set_rounds) in between, in particular while a half is owed
+                    w2 = []
+                    for o in w:
+                        w2.append(o)
+                        if rng.random() < (0.5 if o[0] == "next_u32" else 0.15):
+                            w2.append(("set_rounds", 0))
+                    w = w2
                 S.case("%s cover %s #%d" % (kind, name, wi), corpora.api_case_ops(kind, w, rng))
             if not block:
                 # via-next types: every fill_bytes length once (the abstract graph has one or two nodes, so the
@@ -677,11 +685,18 @@ def check_C16(tier, seed):
             sc = corpora.jitter_script(rng, [("random", min(200000, ncoll * (4 + 3 * (r + 2)) * 2 + 100))])
             ops = [{"op": "timer", "t": 1, "readings": [vlib.u64(x) for x in sc], "cont": corpora.CONT},
                    {"op": "jit_new", "g": 1, "t": 1}, {"op": "set_rounds", "g": 1, "r": r}]
+            cur = {1: r}
             for (op, a, b) in w:
                 if op == "clone":
                     ops.append({"op": "clone", "g": a, "to": b})
+                    cur[b] = cur[a]
+                elif op == "set_rounds":
+                    # mostly to a different count, sometimes to the count it already has
+                    cur[a] = cur[a] if rng.random() < 0.25 else (cur[a] % 5) + 1 if cur[a] < 6 else rng.choice([1, 2, cur[a] - 1])
+                    ops.append({"op": "set_rounds", "g": a, "r": cur[a]})
                 elif op == "clone_from":
                     ops.append({"op": "clone_from", "g": a, "from": b})
+                    cur[a] = cur[b]
                 elif op == "fill_bytes":
                     ops.append({"op": op, "g": a, "n": b})
                 else:
@@ -1121,6 +1136,11 @@ def check_C10(tier, seed):
     ev, cs, res = run_trace("C10b", S2, "Trace_Pair.tla", "Trace_Pair.cfg")
     parts.append((ev, cs, res))
     nviol += report_rejections("C10", res["rejected"], S2)
+    # far positions (past 2^8 and 2^16 blocks / words): lock-stepped generators and clones made out there
+    Sf = corpora.far_corpus(seed, tier)
+    ev, cs, res = run_trace("C10-far", Sf, "Trace_Pair.tla", "Trace_Pair.cfg")
+    parts.append((ev, cs, res))
+    nviol += report_rejections("C10", res["rejected"], Sf)
     # third phase: soundness of the hand-written == on big states cannot be sampled by random pairs (a
     # comparison that folds the state collides with probability 2^-32); the harness searches for two different
     # seeds among n that compare equal, and any pair found is then driven in lock-step like every other pair
@@ -1388,6 +1408,35 @@ def c19_general_cases(seed, tier):
         cases.append({"label": "%s constructed in tight loops on 8 threads" % kind,
                       "solo": {1: [{"op": "par_ctor", "g": 1, "kind": kind, "seeds": seeds, "rounds": 12, "sequential": True}]},
                       "inter": [{"op": "par_ctor", "g": 1, "kind": kind, "seeds": seeds, "rounds": rounds, "th": 1}], "bg": [kind], "bg_threads": 2})
+    # (i) a neighbour JitterRng over a clock that ticks in steps (every reading a multiple of 4, 8, 24, 4096) has its
+    # timer tested and accepted and produces values; the instance under observation, over a lively clock of its own,
+    # works before, in between and afterwards (what one instance learns about ITS timer is nobody else's business)
+    for step in (4, 8, 24, 4096):
+        r2 = random.Random(seed * 31 + step)
+        t = (r2.getrandbits(36) + (1 << 20)) * step
+        rdN = []
+        for i in range(2600):
+            t += step * r2.randrange(1, 1 << r2.choice([5, 9, 12]))
+            rdN.append(t)
+        n_ops = [{"op": "timer", "t": 2, "readings": [vlib.u64(x) for x in rdN], "cont": [vlib.u64(step * c) for c in (97, 1013, 331, 1999, 53)]},
+                 {"op": "jit_new", "g": 2, "t": 2}, {"op": "test_timer", "g": 2, "then_set": True}, {"op": "next_u64", "g": 2}, {"op": "next_u32", "g": 2},
+                 {"op": "test_timer", "g": 2}, {"op": "next_u64", "g": 2}]
+        sc = corpora.jitter_script(r2, [("random", 900)])
+        a_ops = [{"op": "timer", "t": 1, "readings": [vlib.u64(x) for x in sc], "cont": corpora.CONT}, {"op": "jit_new", "g": 1, "t": 1}, {"op": "set_rounds", "g": 1, "r": 2},
+                 {"op": "next_u64", "g": 1}, {"op": "next_u32", "g": 1}] + [{"op": "next_u64", "g": 1} for _ in range(5)] + [{"op": "fill_bytes", "g": 1, "n": 13}, {"op": "timer_stats", "g": 1, "var": True}, {"op": "next_u64", "g": 1}]
+        na = 5
+        inter = [dict(o, th=1) if o["op"] != "timer" else o for o in a_ops[:na]] + [dict(o, th=2) if o["op"] != "timer" else o for o in n_ops[:5]] + \
+                [dict(o, th=1) for o in a_ops[na:na + 3]] + [dict(o, th=2) for o in n_ops[5:]] + [dict(o, th=1) for o in a_ops[na + 3:]]
+        cases.append({"label": "JitterRng next to a neighbour whose accepted clock ticks in steps of %d" % step, "solo": {1: a_ops, 2: n_ops}, "inter": inter, "bg": ["JitterRng"]})
+    # (j) the very first constructions of a type in a process, made on 16 threads at the same moment (whatever a type
+    # sets up on first use): repeated in fresh processes; alone: the same seeds one after the other
+    for kind in corpora.ALL_SEEDABLE:
+        L = corpora.SEEDLEN[kind]
+        seeds = [[(i * 29 + 3) & 0xFF for i in range(L)], [0] * L] + [[rng.getrandbits(8) for _ in range(L)] for _ in range(2)]
+        cases.append({"label": "%s: the first constructions of a process on 16 threads at once" % kind,
+                      "solo": {1: [{"op": "par_ctor", "g": 1, "kind": kind, "seeds": seeds, "rounds": 8, "sequential": True}]},
+                      "inter": [{"op": "par_ctor", "g": 1, "kind": kind, "seeds": seeds, "rounds": 8, "threads": 16}], "bg": [kind], "bg_threads": 0,
+                      "fresh": 8 if tier == "quick" else 40})
     # (c) JitterRng::new() (process-wide cache) before the test_timer of an instance with a hopeless timer of its own
     for style, step in (("constant step", [25]), ("multiples of 100", [100, 300, 200]), ("lively", None)):
         t = rng.getrandbits(40) + 1
@@ -1506,14 +1555,37 @@ def check_C19(tier, seed):
             return ci, g, [e for e in vlib.read_ndjson(tp2) if e.get("e") != "reset"]
         gjobs = [(ci, g, sops) for ci, c in enumerate(gcases) for g, sops in c["solo"].items()]
         A, B, index = [], [], []
+        solo_of = {}
+
+        def own(evs, g):
+            mine = [e for e in evs if (e.get("g") == g or (e.get("e") in ("src", "timer") and (e.get("s") == g or e.get("t") == g))) and e.get("e") not in ("bg_start", "bg_stop")]
+            return [e for e in mine if not (e.get("e") in ("src",) and e.get("s") != g)]
         with concurrent.futures.ThreadPoolExecutor(max_workers=12) as ex:
             for ci, g, sev in ex.map(solo2, gjobs):
-                mine = [e for e in inter_by_case.get(ci, []) if (e.get("g") == g or (e.get("e") in ("src", "timer") and (e.get("s") == g or e.get("t") == g))) and e.get("e") not in ("bg_start", "bg_stop")]
-                mine = [e for e in mine if not (e.get("e") in ("src",) and e.get("s") != g)]
+                solo_of[(ci, g)] = sev
                 head = {"e": "reset", "op": "reset", "label": gcases[ci]["label"], "g": g}
                 A += [head] + sev
-                B += [head] + mine
+                B += [head] + own(inter_by_case.get(ci, []), g)
                 index.append((ci, g, len(A)))
+        if not with_bg:
+            # "fresh": the interleaved side again, as the first and only thing a process does, so many times
+            def fresh(job):
+                ci, k = job
+                sp3, tp3 = os.path.join(swd, "gf_%d_%d.s" % (ci, k)), os.path.join(swd, "gf_%d_%d.t" % (ci, k))
+                vlib.write_ndjson(sp3, [{"op": "reset"}] + gcases[ci]["inter"])
+                vlib.drive(binp, sp3, tp3)
+                evs = [e for e in vlib.read_ndjson(tp3) if e.get("e") != "reset"]
+                os.remove(sp3)
+                os.remove(tp3)
+                return ci, k, evs
+            fjobs = [(ci, k) for ci, c in enumerate(gcases) for k in range(c.get("fresh", 0))]
+            with concurrent.futures.ThreadPoolExecutor(max_workers=3) as ex:      # few at a time: each one wants 16 cores for a moment
+                for ci, k, evs in ex.map(fresh, fjobs):
+                    for g in gcases[ci]["solo"]:
+                        head = {"e": "reset", "op": "reset", "label": "%s (fresh process %d)" % (gcases[ci]["label"], k), "g": g}
+                        A += [head] + solo_of[(ci, g)]
+                        B += [head] + own(evs, g)
+                        index.append((ci, g, len(A)))
         pa, pb = os.path.join(swd, "gA.t"), os.path.join(swd, "gB.t")
         vlib.write_ndjson(pa, A)
         vlib.write_ndjson(pb, B)
